@@ -186,6 +186,33 @@ async function query_case(c) {
     return out;
 }
 
+async function lasso_case(c) {
+    // an input iterator that replays a finite table forever, counts pulls and gives up at a horizon
+    class Horizon extends Error {}
+    class Lasso extends rbql.TableIterator {
+        constructor(table, horizon) { super(table); this.pulls = 0; this.horizon = horizon; }
+        async get_record() {
+            if (this.pulls >= this.horizon) throw new Horizon('horizon');
+            let rec = this.table[this.pulls % this.table.length];
+            this.pulls += 1;
+            return rec;
+        }
+    }
+    class Rec extends rbql.RBQLOutputWriter {
+        constructor(it) { super(); this.rows = []; this.pulls_at_write = []; this.it = it; }
+        async write(fields) { this.rows.push(fields); this.pulls_at_write.push(this.it.pulls); return true; }
+    }
+    let it = new Lasso(c.table, c.horizon);
+    let w = new Rec(it);
+    try {
+        await rbql.query(c.query, it, w, []);
+        return {records: enc(w.rows), pulls: it.pulls, pulls_at_write: w.pulls_at_write};
+    } catch (e) {
+        if (e instanceof Horizon || (e && e.message && String(e.message).indexOf('horizon') != -1)) return {horizon: true, records: enc(w.rows), pulls: it.pulls};
+        return {error: err_info(e), pulls: it.pulls};
+    }
+}
+
 async function handle(c) {
     switch (c.op) {
         case 'split': {
@@ -209,6 +236,7 @@ async function handle(c) {
         }
         case 'read': return await read_case(c);
         case 'readcomp': return await readcomp_case(c);
+        case 'lasso': return await lasso_case(c);
         case 'write': return await write_case(c);
         case 'query': return await query_case(c);
         case 'header': {
